@@ -78,6 +78,7 @@ type inst struct {
 	curCb  int      // id of the callback in force (0 = none)
 	onCb   func(k string, v interface{}) // trace hook: called at every callback invocation
 	fnlog  []string
+	depth  int // nesting depth of the re-entrant sweeper callback (id 8)
 }
 
 func (in *inst) mkcb(id int) func(k string, v interface{}) {
@@ -93,7 +94,24 @@ func (in *inst) mkcb(id int) func(k string, v interface{}) {
 			in.c.Count()
 		}
 	}
+	if id == 8 {
+		// a callback that starts another cleanup pass from inside a pass (C06 lets the callback call back into
+		// the cache): it plants two entries that expire at once, lets the clock pass them, and sweeps
+		return func(k string, v interface{}) {
+			vshim.Park("cb")
+			in.cbs = append(in.cbs, fmt.Sprintf("%d:%s:%s", id, k, val(v)))
+			if in.depth == 0 {
+				in.depth++
+				in.c.Set("ra-"+k, val(v)+".a", 1)
+				in.c.Set("rb-"+k, val(v)+".b", 1)
+				vshim.Advance(2)
+				in.c.DeleteExpired()
+				in.depth--
+			}
+		}
+	}
 	return func(k string, v interface{}) {
+		vshim.Park("cb") // a scheduling point under the cooperative scheduler (no-op otherwise)
 		if in.onCb != nil {
 			in.onCb(k, v)
 		}
